@@ -437,7 +437,8 @@ func (state *RuntimeState) validateUserTOTP(username string, OTPValue int, t tim
 	userRateLimit.failCount++
 	//every 5th bad try, make it wait an extra hour
 	if userRateLimit.failCount%numFailedTOTPChecksForTimeoutIncrease == 0 {
-		userRateLimit.lockoutExpirationTime.Add(time.Duration(3600) * time.Second)
+		userRateLimit.lockoutExpirationTime = time.Now().Add(
+			time.Duration(userRateLimit.failCount/numFailedTOTPChecksForTimeoutIncrease) * time.Hour)
 	}
 	userRateLimit.lastFailTime = time.Now()
 	state.totpLocalTateLimitMutex.Lock()
